@@ -114,7 +114,7 @@ def from_saved_field(f, place, depth=0):
 
 
 def fallible(fx, g):
-    return fx.tys(g.sig[-1]).startswith(("std::result::Result<", "core::result::Result<"))
+    return bool(g.sig) and fx.tys(g.sig[-1]).startswith(("std::result::Result<", "core::result::Result<"))
 
 
 def ok_edge_of_try(fx, f, bi, t):
@@ -133,6 +133,34 @@ def ok_edge_of_try(fx, f, bi, t):
                 if cont is not None:
                     return cont
     return bi
+
+
+_restorer = {}
+
+
+def restorer_param(fx, f, local, field):
+    """`local` is (a copy of) a by-value parameter of `f`, and every caller passes a saved value of self.<field> for it"""
+    import c10
+    root = c10.copy_root_local(f, local)
+    if not (1 <= root <= f.argc) or f.closure:
+        return False
+    key = (id(fx), f.path, root, field)
+    if key in _restorer:
+        return _restorer[key]
+    _restorer[key] = False
+    sites = [(g, t) for g in fx.fns.values() if not g.derived for _, t in g.calls() if t[1].get("d") == f.path]
+    ok = bool(sites)
+    for g, t in sites:
+        if root - 1 >= len(t[2]):
+            ok = False
+            break
+        a = t[2][root - 1]
+        sv = saved_locals(g, field, fx)
+        if not (a[0] in ("c", "m") and (a[1][0] in sv or from_saved_field(g, a[1]))):
+            ok = False
+            break
+    _restorer[key] = ok
+    return ok
 
 
 def analyse(fx, f, field="env"):
@@ -158,6 +186,8 @@ def analyse(fx, f, field="env"):
                 if src is not None:
                     if src[0] in saved or from_saved_field(f, src):
                         kind = "restore"
+                    elif not src[1] and restorer_param(fx, f, src[0], field):
+                        kind = "restore"    # `finish_run(.., caller_env, ..)`: a helper that puts back what every caller saved
                 (installs if kind == "install" else restores).append((bi, s[3]))
             # hand-off of the saved value: stored in an aggregate / interpreter field / returned
             rv = s[2]
@@ -180,6 +210,39 @@ def analyse(fx, f, field="env"):
                 fl = E.field_of_ref(f, t[2][0][1][0])
                 if fl and "saved" in fl[2]:
                     handoffs.add(bi)
+    # a fallible helper that is lent the saved value (`compile_main_program(.., &mut saved_env)?`) and puts it back itself when it fails: the Err edge of
+    # the `?` on its result is closed by the callee (its Ok edge is not)
+    for bi, t in f.calls():
+        g = fx.fns.get(t[1].get("d") or "")
+        if g is None or not t[1].get("local") or not fallible(fx, g) or t[3][1]:
+            continue
+        lent = None
+        for ai, a in enumerate(t[2]):
+            if a[0] in ("c", "m") and not a[1][1] and fx.tys(f.locals[a[1][0]]).startswith("&mut "):
+                from c09 import ancestors as _anc
+                if _anc(f, a[1][0]) & saved:
+                    lent = ai + 1
+        if lent is None:
+            continue
+        # the callee writes self.<field> from what it takes out of that parameter
+        import c10
+        restores_param = False
+        for bl in g.blocks:
+            for s in bl["s"]:
+                if s[0] == "a" and is_env_place(s[1], field) and s[2][0] == "use" and s[2][1][0] in ("c", "m"):
+                    from c09 import ancestors
+                    if lent in ancestors(g, s[2][1][1][0]):
+                        restores_param = True
+        if not restores_param:
+            continue
+        res = t[3][0]
+        for b2, t2 in f.calls():
+            if "ops::Try" in (t2[1].get("d") or "") and (t2[1].get("d") or "").endswith("branch") and t2[2] and t2[2][0][0] in ("c", "m") and t2[2][0][1][0] == res \
+                    and t2[4] is not None and t2[4] >= 0:
+                sw = f.blocks[t2[4]]["t"]
+                if sw[0] == "switch":
+                    brk = next((x for v, x in sw[2] if v == "1"), None) or sw[3]
+                    handoffs.add(brk)
     # mem::replace(&mut self.env, new) is an install whose result is the saved value
     for bi, t in f.calls():
         d = t[1].get("d", "")
